@@ -368,7 +368,9 @@ def replay_api_behaviours(res, builds, pools, behs, owners, codemaps=("gap",)):
                 if r.get("k") == "summary":
                     res.cov["evaluations"] += r.get("ops", 0)
                 elif r.get("k") == "mismatch":
-                    if api_owner(r["what"]) in owners:
+                    # C14 is about every return value of every call (what a fresh object with the same definition and settings would
+                    # return), so it also owns the return codes that C15 names
+                    if api_owner(r["what"]) in owners or ("C14" in owners and r["what"].startswith(("parse return code", "definition return code"))):
                         res.violation("%s|%s" % (api_owner(r["what"]), r["what"]), dict(r, codemap=cm, build=os.path.basename(bdir), behaviour=_beh_of(blocks, r.get("g"))))
                     else:
                         res.notes["other_property_mismatches"] = res.notes.get("other_property_mismatches", 0) + 1
@@ -439,7 +441,9 @@ def run_api(res, scratch, tier, seed, prop, owners):
                 if r.get("k") == "summary":
                     res.cov["evaluations"] += r.get("ops", 0)
                 elif r.get("k") == "mismatch":
-                    if api_owner(r["what"]) in owners:
+                    # C14 is about every return value of every call (what a fresh object with the same definition and settings would
+                    # return), so it also owns the return codes that C15 names
+                    if api_owner(r["what"]) in owners or ("C14" in owners and r["what"].startswith(("parse return code", "definition return code"))):
                         res.violation("%s|%s" % (api_owner(r["what"]), r["what"]), dict(r, codemap=cm, build=os.path.basename(bdir), behaviour=_beh_of(blocks, r.get("g"))))
                     else:
                         res.notes["other_property_mismatches"] = res.notes.get("other_property_mismatches", 0) + 1
@@ -691,7 +695,8 @@ CONSTANTS
        ("INVARIANTS " + " ".join(invariants) + "\n") if invariants else "", "VIEW View\n" if view else "")
 
 
-HASHFN = {"HashId": lambda e: e, "HashColl": lambda e: (e % 2) * 7 + 3, "HashSpread": lambda e: e * 37 + 11}
+HASHFN = {"HashId": lambda e: e, "HashColl": lambda e: (e % 2) * 7 + 3, "HashSpread": lambda e: e * 37 + 11,
+          "HashSq9": lambda e: {1: 9, 2: 3, 3: 6, 4: 72, 5: 12}.get(e, 30), "HashSq25": lambda e: {1: 25, 2: 5, 3: 10, 4: 15, 5: 20}.get(e, 50)}
 
 
 def cont_block(bid, which, hashop, univ, hist):
@@ -748,6 +753,9 @@ def check_C19(res, scratch, tier, seed):
     configs = []
     for hashop in ("HashColl", "HashId", "HashSpread"):
         configs.append(("hash", hashop, [0, 1, 5], [1], ["HashAbs", "HashNoDup", "HashFindExact", "HashCount", "HashSearchTerminates"]))
+    # requested sizes just below the square of a prime, with hash values that would trap a probe sequence in a table of that size
+    configs.append(("hash", "HashSq9", [7], [1], ["HashAbs", "HashNoDup", "HashFindExact", "HashCount", "HashSearchTerminates"]))
+    configs.append(("hash", "HashSq25", [22, 23], [1], ["HashAbs", "HashNoDup", "HashFindExact", "HashCount", "HashSearchTerminates"]))
     # initial lengths that are not multiples of the alignment, small chunks to end an object inside the last word
     configs.append(("os", "HashId", [0, 8, 13, 16, 100], [1, 3, 7, 20, 600], ["OsFits"]))
     configs.append(("vlo", "HashId", [0, 1, 8, 13], [1, 3, 7, 20, 600], ["VloFits"]))
@@ -988,7 +996,7 @@ def check_C11(res, scratch, tier, seed):
                        "(2) seeded character mutations and truncations of valid texts are judged by TLC (SyntaxOK) and must be refused with a documented code and "
                        "a line number inside the text when they are not valid, on plain and ASan builds; non-trivial = texts with >= 1 rule and a translation or code clause")
     matrix = [(1, 1, 0, 1, 3, 0), (0, 0, 0, 0, 3, 0), (2, 0, 1, 0, 3, 0)]
-    fams = [("D2", mcdescr_cfg([1, 2], [11], 2, 2, 3, False, [0, 3, 4, 5], [0, 1, 2, 3, 4])),
+    fams = [("D2", mcdescr_cfg([1, 2], [11], 2, 2, 3, False, [0, 3, 4, 5], [0, 1, 2, 3, 4, 5])),
             ("D1e", mcdescr_cfg([1, 2], [11, 12], 1, 3, 2, True, [1, 4, 7, 9], [0, 1, 3]))]
     if tier == "thorough":
         fams += [("D2b", mcdescr_cfg([1, 2], [11, 12], 2, 2, 3, False, [1, 5, 8], [0, 1, 3]))]
